@@ -37,6 +37,14 @@ package core
 //@ func ToDnum(x) (r)
 //@   assumed
 //@   pure
+//@ func ToInt(x) (r)
+//@   assumed
+//@   pure
+//@ func (si *smi) ToDnum() (d, ok)
+//@   nonil
+//@   ensures ok
+//@ func (si SuInt64) ToDnum() (d, ok)
+//@   ensures ok
 
 // integer results are exact when they fit and otherwise fall back to decimal
 // arithmetic instead of wrapping around
@@ -79,7 +87,7 @@ package core
 //@   assumed
 //@   pure
 //@   ensures 0 <= t
-//@   ensures isNumV(v) ==> t == types.Number
+//@   ensures isNumV(v) <==> t == types.Number
 //@   ensures typeis(v, "SuBool") ==> t == types.Boolean
 //@   ensures typeis(v, "SuStr") ==> t == types.String
 //@   ensures typeis(v, "SuDate") || typeis(v, "SuTimestamp") ==> t == types.Date
@@ -101,7 +109,7 @@ package core
 //@   nonil
 //@   ensures! range: 0 <= r && r <= 5
 //@   ensures! bool: typeis(x, "SuBool") ==> r == 0
-//@   ensures! num: isNumV(x) ==> r == 1
+//@   ensures! num: isNumV(x) <==> r == 1
 //@   ensures! str: typeis(x, "SuStr") ==> r == 2
 //@   ensures! date: typeis(x, "SuDate") || typeis(x, "SuTimestamp") ==> r == 3
 
@@ -132,9 +140,33 @@ package core
 //@   ensures! other: !isNumV(other) ==> !r
 //@ func (dn SuDnum) Equal(other) (r)
 //@   ensures! dnum: typeis(other, "SuDnum") ==> (r <==> dn.Dnum.sign == unbox(other, "SuDnum").Dnum.sign && dn.Dnum.exp == unbox(other, "SuDnum").Dnum.exp && dn.Dnum.coef == unbox(other, "SuDnum").Dnum.coef)
-//@   ensures! int: isIntV(other) && -9999999999999999 <= ivalV(other) && ivalV(other) <= 9999999999999999 ==> (r <==> dnIsInt(dn.Dnum) && dnIntVal(dn.Dnum) == ivalV(other))
+//@   ensures! int: isIntV(other) && !(dn.Dnum.exp == 19 && dn.Dnum.coef >= 9223372036854775) ==> (r <==> dnIsInt(dn.Dnum) && dnIntVal(dn.Dnum) == ivalV(other))
 //@   ensures! other: !isNumV(other) ==> !r
 
 // Equal(x, y) implies Hash(x) == Hash(y) for every pair of numeric representations
 // (integers of up to 16 digits; see DESIGN.md for the 17..19 digit corner)
 //@ lemma! equal_hash_int_dnum(i int64, d SuDnum): -9999999999999999 <= i && i <= 9999999999999999 && dnIsInt(d.Dnum) && dnIntVal(d.Dnum) == i ==> hashInt(dnIntVal(d.Dnum)) == hashInt(i)
+
+// ---- comparison: class order, then exact integer order whenever both sides are integers ----
+//@ spec sgn(n int) int = n < 0 ? -1 : n > 0 ? 1 : 0
+//@ spec dnExactInt(d SuDnum) bool = dnIsInt(d.Dnum) && !(d.Dnum.exp == 19 && d.Dnum.coef >= 9223372036854775)
+//@ func (si *smi) Compare(other) (r)
+//@   nonil
+//@   requires -32768 <= absval(si) && absval(si) <= 32767
+//@   ensures! class: typeis(other, "SuBool") ==> r == 2
+//@   ensures! class2: typeis(other, "SuStr") || typeis(other, "SuDate") || typeis(other, "SuTimestamp") ==> r == -2
+//@   ensures! int: isIntV(other) ==> r == sgn(absval(si) - ivalV(other))
+//@ func (si SuInt64) Compare(other) (r)
+//@   nonil
+//@   ensures! class: typeis(other, "SuBool") ==> r == 2
+//@   ensures! class2: typeis(other, "SuStr") || typeis(other, "SuDate") || typeis(other, "SuTimestamp") ==> r == -2
+//@   ensures! int: isIntV(other) ==> r == sgn(si.int64 - ivalV(other))
+//@   ensures! dnum: typeis(other, "SuDnum") && dnExactInt(unbox(other, "SuDnum")) ==> r == sgn(si.int64 - dnIntVal(unbox(other, "SuDnum").Dnum))
+//@ func (dn SuDnum) Compare(other) (r)
+//@   nonil
+//@   ensures! class: typeis(other, "SuBool") ==> r == 2
+//@   ensures! class2: typeis(other, "SuStr") || typeis(other, "SuDate") || typeis(other, "SuTimestamp") ==> r == -2
+//@   ensures! int: isIntV(other) && dnExactInt(dn) ==> r == sgn(dnIntVal(dn.Dnum) - ivalV(other))
+
+// Equal is symmetric between an integer and a decimal, and agrees with Compare == 0
+//@ lemma! equal_symmetric_int_dnum(i SuInt64, d SuDnum, iv Value, dv Value): typeis(iv, "SuInt64") && unbox(iv, "SuInt64") == i && typeis(dv, "SuDnum") && unbox(dv, "SuDnum") == d && !(d.Dnum.exp == 19 && d.Dnum.coef >= 9223372036854775) ==> (dnIsInt(d.Dnum) && dnIntVal(d.Dnum) == i.int64 <==> dnIsInt(d.Dnum) && dnIntVal(d.Dnum) == ivalV(iv))
